@@ -155,6 +155,12 @@ func (ex *Exec) run() {
 	if fc != nil {
 		ctx.pkg = fc.Pkg
 	}
+	// vacuity guard: the assumptions collected along the paths to the return
+	// must be satisfiable (taken before postconditions are added as facts)
+	if ex.full && fc != nil {
+		o := ex.oblige("vacuity", "return", fn.Pos(), nil, ret, ts.True())
+		o.MustBeSat = true
+	}
 	// lock balance
 	ex.checkLockBalance(ctx, ret)
 	if ex.full && fc != nil {
@@ -172,8 +178,6 @@ func (ex *Exec) run() {
 		}
 		// declared ghost updates must be what the body did (for non-stubs they
 		// are part of the postcondition)
-		o := ex.oblige("vacuity", "return", fn.Pos(), nil, ret, ts.True())
-		o.MustBeSat = true
 		// every call-site clause must have found its call (contract-stale guard)
 		for _, s := range fc.Sites {
 			if !ex.sitesHit[fmt.Sprintf("spec:%s#%d", s.Callee, s.Occ)] {
